@@ -23,7 +23,7 @@ add("C02", "symbolic execution of CVSS4.__init__ (m, macroVector, compute_base_s
 add("C04", "two engines on the real parse_vector code, both inductive (one step from an arbitrary metric map): (1) forking symbolic execution over z3 sequence-theory terms (pysymex/strsym.py): the loop body on ONE ARBITRARY '/'-free string and the code before the loop on ONE ARBITRARY string, one z3 query per path (cvc5 on unknown), translator validation per path; (2) guarded-union engine with CPython string semantics on one field slot over legal literals + near-miss alphabet, heads one edit away from a legal prefix, check_mandatory from an arbitrary map; z3 decides each step against the grammar step",
     "One-step lemmas from an arbitrary loop state, each decided by the solver over all states and - in the free-string lemmas - over every string of z3's sequence theory (no length bound, code points up to U+2FFFF); composed by a written induction to any number of fields. The finite alphabets of the second engine are listed in the evidence.",
     COMMON_NOTE + " Additionally trusted for the free-string lemmas: the strsym executor (validated per path against the real parse_vector), z3's sequence theory (cvc5 as second solver in the thorough tier).", "DESIGN.md sections 2.6 and 5 (C04)")
-add("C05", "two related symbolic runs (ABSENT<->explicit ND/X on any subset) with all outputs compared by z3; commutation lemma for two field slots on the real loop body from an arbitrary state; accessors executed with the raw string opaque",
+add("C05", "two related symbolic runs (ABSENT<->explicit ND/X on any subset) with all outputs compared by z3; commutation lemma for two field slots on the real loop body from an arbitrary state; the real constructor on the canonical spelling and on two whole-vector permutations with every output / every attribute compared by z3; accessors executed with the raw string opaque",
     "Not-Defined spelling: every output of the two runs is solver-proved equal over all assignments and all subsets; field order: solver-proved commutation of the real loop body for any two fields from any state, composed over transpositions by a written induction.",
     COMMON_NOTE, "DESIGN.md section 6 C05")
 add("C06", "two related symbolic runs per substitution (selector variable per metric, any subset) with z3 deciding score equality; syntactic support of swept score guards for clause (e); v4 via invariance of the real effective-value function m()",
